@@ -134,8 +134,12 @@ def run_prop(ctx, prop, mod, rule, pred, corrupt, clause):
     if r is None:
         return
     s = r.summary
-    ctx.log("replayed %d cases through the real proxy (%d routes in one table), %d failed, %d request errors, %.0fs"
-            % (s["cases"], s["routes"], s["fails"], s.get("errors", 0), r.wall))
+    ctx.log("replayed %d cases through the real proxy (%d routes in one table), %d failed, %d request errors, %d exchanges repeated, %.0fs"
+            % (s["cases"], s["routes"], s["fails"], s.get("errors", 0), s.get("retried_exchanges", 0), r.wall))
+    if s.get("skipped_no_ipv6"):
+        ctx.log("NOTE: %d case(s) with an IPv6 peer were skipped: ::1 cannot be listened on here" % s["skipped_no_ipv6"])
+        ctx.assumptions.append("%d IPv6-peer case(s) skipped (no ::1 on this machine): counted, not judged" % s["skipped_no_ipv6"])
+        ctx.cover("skipped", skipped_no_ipv6=s["skipped_no_ipv6"])
     ctx.cover(traces_validated_against_impl=s["ran"], evaluations=s["ran"], distinct_nontrivial=s["distinct_nontrivial"],
               samples=s.get("samples") or [], rule=rule, exhaustive=ctx.thorough)
     ctx.take_failures(r, HARNESS[prop])
@@ -174,6 +178,7 @@ def _c07_corrupt(c):
 def run(ctx):
     ctx.level = "model_checking"
     ctx.assumptions += COMMON_ASSUMPTIONS + [
+        "never sliced (in every quick run): route options that need escaping (strip/prepend with a non-ASCII letter or ^, the client spelling the prefix %C3%B6 / %c3%b6 / %5E) x 6 raw paths; queries with empty parameters (leading, trailing, doubled &) x route query; upstream answers preceded by 103 / 102 / 103+103 and requests with Expect: 100-continue (final status, headers, body judged; the informational answers themselves and the Expect header are not)",
         "universe: 6 methods x 10 raw paths (%2F %2f %20 %41 %C3%A9, unescaped sub-delimiters, strip leaving nothing / a relative rest) x 3 queries x strip {none, /strip, one that does not apply} x prepend {none, /pre, pre} x host {none, dst, name} x 3 target queries x 4 (header set, upstream answer) pairs, plain and TLS front alternating; no-route: 6 methods x 2 paths x 3 queries x status {404, 503, 999} x page {empty, html} x {host without routes, route that does not match}",
         "bodies {0, 1, 32 KiB+1, 1 MiB} x {Content-Length, chunked in seeded pieces} attached round-robin to requests and upstream answers",
         "scope: strip-then-prepend where strip leaves an empty or relative rest AND a prefix is prepended is left out (two readings); a strip prefix that ends inside an escape is not asked; hop-by-hop headers are net/http's; User-Agent suppression and added forwarding headers are not judged here (C08)",
